@@ -317,6 +317,11 @@ pub fn squash(text: &str) -> String
         {
             i += 1;
         }
+        else if c == 0xE2 && i + 2 < b.len() && b[i + 1] == 0x80 && (b[i + 2] == 0x8E || b[i + 2] == 0x8F)
+        {
+            // LEFT-TO-RIGHT / RIGHT-TO-LEFT MARK: white space for Rust's lexer
+            i += 3;
+        }
         else
         {
             out.push(c);
